@@ -242,6 +242,12 @@ pub fn check(hdr: &str, trace: &[(String, Vec<String>)], mon: &mut dyn Write, st
     // the D4 / D19 history occurred in this case: events released by a confirm whose fragment did not carry them
     let mut d4_hist = false;
     let mut d19_hist = false;
+    // D32: the master accepted, as the answer to its READ, a solicited response the outstation had written
+    // before that READ was sent (possible once the 4-bit sequence number has wrapped while responses were
+    // held up in transit); its CONFIRM then releases the events of the response the outstation is really
+    // waiting on, which the master never saw
+    let mut d32_hist = false;
+    let mut read_req: Option<(u64, u8)> = None;
     // a response carrying events awaits its confirm (solicited, unsolicited)
     let mut pending_sol = false;
     let mut pending_uns = false;
@@ -492,7 +498,7 @@ pub fn check(hdr: &str, trace: &[(String, Vec<String>)], mon: &mut dyn Write, st
                         // the shortfall is explained only if that many events of this image have the known history
                         // (events are matched to wire objects by image, so the per-image attribution can be off by
                         // one identical image: the case-level history decides then)
-                        let c = if d3_dead { "D3" } else if causes.len() as u64 >= *n - got { causes[0] } else if d19_hist { "D19" } else if d4_hist { "D4" } else { "" };
+                        let c = if d3_dead { "D3" } else if causes.len() as u64 >= *n - got { causes[0] } else if d19_hist { "D19" } else if d4_hist { "D4" } else if d32_hist { "D32" } else { "" };
                         fail(mon, hdr, "events_delivered_at_least_once", c, &format!("{} {} image {:02x?}: {n} event(s) recorded and not overflow-discarded, {got} reached the handler{}", if key.0 { "binary" } else { "analog" }, key.1, key.2, if auto { " (no user read in the tail; the point's class is reported by the library itself)" } else { "" }));
                         break;
                     }
@@ -687,6 +693,7 @@ pub fn check(hdr: &str, trace: &[(String, Vec<String>)], mon: &mut dyn Write, st
                     "tx" if w.len() == 4 => {
                         let frag = unhex(w[3]);
                         if frag.len() >= 2 && frag[1] == 1 {
+                            read_req = Some((now, frag[0] & 0x0F));
                             read_outstanding = Some(k);
                             read_mark = Some(updates);
                             if d19_fin_seen {
@@ -805,6 +812,14 @@ pub fn check(hdr: &str, trace: &[(String, Vec<String>)], mon: &mut dyn Write, st
                         // the IIN handed to the handler with the fragment (`ReadHandler::begin_fragment`)
                         let iin2: u8 = w.get(7).and_then(|v| v.parse().ok()).unwrap_or(0);
                         let from_relay = cur_to_m.iter().any(|i| i.src != 1024) || op.starts_with("inject");
+                        if deliver_kind != "unsol" && !from_relay {
+                            if let Some((sent, seq)) = read_req {
+                                if cur_to_m.iter().any(|i| !i.injected && i.frag.len() >= 4 && i.frag[1] == 0x81 && i.frag[0] & 0x0F == seq && i.sent < sent) {
+                                    d32_hist = true;
+                                    stats.hit("c02_stale_response_accepted_after_sequence_wrap");
+                                }
+                            }
+                        }
                         if iin2 & 0x08 != 0 && !from_relay {
                             ovf_shown.push((k, read_outstanding));
                             stats.hit("c02_iin23_handed_to_handler");
@@ -845,7 +860,7 @@ pub fn check(hdr: &str, trace: &[(String, Vec<String>)], mon: &mut dyn Write, st
                                         if let Some(mark) = read_mark {
                                             let fresh = held.iter().any(|i| pt.hist.get(i + 1).map(|n| n.0 > mark).unwrap_or(true));
                                             if !fresh {
-                                                fail(mon, hdr, "no_resurrection", if d19_static { "D19" } else { "" }, &format!("op {k}: static g{g}v{v} index {idx} image {img:02x?} had been replaced before the READ it answers was written"));
+                                                fail(mon, hdr, "no_resurrection", if d19_static { "D19" } else if d32_hist { "D32" } else { "" }, &format!("op {k}: static g{g}v{v} index {idx} image {img:02x?} had been replaced before the READ it answers was written"));
                                             }
                                         }
                                     }
